@@ -725,6 +725,22 @@ func registerFEPrelude() {
 		}
 		return x.ts.Bool(all)
 	}
+	// vFreshNoiseOnly(a []uint64, q) bool : every slot is zero or a sum of single error atoms with coefficient +1 or -1
+	// (exactly the freshly sampled error: no scaling by a constant, no product with another value)
+	P["vFreshNoiseOnly"] = func(x *Exec, fn *ssa.Function, a []Value) Value {
+		q := x.term(a[1]).C
+		s := x.feS()
+		ok := true
+		for _, f := range x.sliceFEs(a[0], q) {
+			for k, c := range f.P.terms {
+				ids := monoIDs(monoStr(k))
+				if len(ids) != 1 || s.atoms[ids[0]].class != ClsError || (c != 1 && c != q-1) {
+					ok = false
+				}
+			}
+		}
+		return x.ts.Bool(ok)
+	}
 	// vNoAtomOfClass(a []uint64, q, class) bool
 	P["vNoAtomOfClass"] = func(x *Exec, fn *ssa.Function, a []Value) Value {
 		q := x.term(a[1]).C
